@@ -15,6 +15,9 @@ pub struct RequestId(i64);
 impl RequestId {
     /// Get next value
     pub fn get_next(&mut self) -> i64 {
+        #[cfg(gufo_snmp_verif)]
+        let mut rng = crate::verif::rng();
+        #[cfg(not(gufo_snmp_verif))]
         let mut rng = rand::rng();
         let x: i64 = rng.random();
         self.0 = x & MAX_REQUEST_ID;
